@@ -3,6 +3,7 @@ import io
 import zlib
 
 from vf.enc import elf as W
+from vf import streams
 from vf.ref import insegment as REF
 from vf.choose import RndChooser, composite_from, HypChooser
 
@@ -93,7 +94,9 @@ def run_data(ctx, case):
     data, R = W.build(m)
     nt = False
     try:
-        ef = L['ELFFile'](io.BytesIO(data))
+        st0, skind = streams.pick(data)        # BytesIO, minimal read/seek/tell object, memory map or real file
+        ctx.count('stream.' + skind)
+        ef = L['ELFFile'](st0)
     except Exception as e:  # noqa
         ctx.fail_exc('data|open', e, case)
         ctx.case(data, False)
@@ -339,7 +342,9 @@ def run_addr(ctx, case):
     m = case['model']
     data, R = W.build(m)
     try:
-        ef = L['ELFFile'](io.BytesIO(data))
+        st0, skind = streams.pick(data)        # BytesIO, minimal read/seek/tell object, memory map or real file
+        ctx.count('stream.' + skind)
+        ef = L['ELFFile'](st0)
     except Exception as e:  # noqa
         ctx.fail_exc('addr|open', e, case)
         return
